@@ -84,3 +84,19 @@ Theorem C11_restart_examples :
   check_existing compare_table compare_final (ex_env 2 0) (write_table (ex_env 2 1) prop_table) = -1.
 Proof. exact (conj restart_same_accepted (conj restart_other_subchannels_refused restart_other_mode_refused)). Qed.
 Print Assumptions C11_restart_examples.
+
+(* ---- "reads back as the union of all sessions' samples": the reader (model of C08) on the files of a
+   channel recorded in any number of forward sessions returns the canonical block list of the union
+   map -- correct indices, contiguous samples as one block also across a session boundary, nothing
+   else.  (ok_history: block calls start at non-negative indices; each restart begins at or after the
+   end of every file period that holds a recorded sample.) *)
+From DRF Require Import Base.Runs Model.ReaderCore Proofs.RoundTrip Proofs.ApiRoundTrip.
+
+Theorem C11_sessions_read_back_as_union : forall c ops s e,
+  vcfg c -> 0 < c_sc c -> (c_sc c * 1000) mod c_fc c = 0 ->
+  c_chunk c = true -> ok_history (c, spec_init) ops ->
+  let '(c', st') := fold_left sstep_model ops (c, init_state) in
+  let '(_, s') := fold_left sstep_spec ops (c, spec_init) in
+  read ExactRational (rc_of c') (map (to_rfile c') (all_files st')) s e = runs (s_map s') s e.
+Proof. exact sessions_roundtrip. Qed.
+Print Assumptions C11_sessions_read_back_as_union.
